@@ -399,6 +399,14 @@ func rectangleRing(info *types.Info, lit *ast.CompositeLit, b types.Object) stri
 // full-range loops over the corresponding receiver level, and stores a value
 // derived from that element.
 func c10copy(c *Ctx, info *types.Info, sc *fnScope, recv types.Object, fd *ast.FuncDecl, prob func(token.Pos, string)) {
+	copyLoops(info, sc, recv, fd, false, prob)
+}
+
+// copyLoops checks an element-wise copy from the nested collection src into a
+// fresh structure.  With closing=true each member is allocated one slot longer
+// and that slot must receive the member's first element (ring closing);
+// it returns whether the closing store was seen.
+func copyLoops(info *types.Info, sc *fnScope, recv types.Object, fd *ast.FuncDecl, closing bool, prob func(token.Pos, string)) (closed bool) {
 	type frame struct {
 		l    *Loop
 		over ast.Expr // collection iterated
@@ -480,6 +488,30 @@ func c10copy(c *Ctx, info *types.Info, sc *fnScope, recv types.Object, fd *ast.F
 					e = x.X
 				}
 				stores++
+				if closing && len(idxs) == len(stack)+1 && len(stack) >= 1 && len(n.Rhs) == len(n.Lhs) {
+					// out[i][len(elem)] = out[i][0]
+					fr := stack[len(stack)-1]
+					last := sc.aff(idxs[len(idxs)-1])
+					okIdx := last.ok && last.K == 0 && last.Of != nil && ((fr.l.Val != nil && objOf(info, last.Of) == fr.l.Val) || isRecvElem(info, last.Of, recv, fr.l.Idx))
+					okVal := false
+					if vx, ok := unparen(n.Rhs[i]).(*ast.IndexExpr); ok {
+						if k, ok := constInt(info, vx.Index); ok && k == 0 && sameExpr(info, vx.X, ix.X) {
+							okVal = true
+						}
+					}
+					okOuter := true
+					for k, ie := range idxs[:len(idxs)-1] {
+						if off, ok := sc.idxOffset(ie, stack[k].l.Idx); !ok || off != 0 {
+							okOuter = false
+						}
+					}
+					if okIdx && okVal && okOuter {
+						closed = true
+						continue
+					}
+					prob(n.Pos(), "closing store `"+src(n)+"` does not put the ring's first vertex into its last slot")
+					continue
+				}
 				if len(idxs) > len(stack) {
 					prob(n.Pos(), "store `"+src(lh)+"` is not inside loops over the corresponding receiver levels")
 					continue
@@ -498,8 +530,14 @@ func c10copy(c *Ctx, info *types.Info, sc *fnScope, recv types.Object, fd *ast.F
 						if len(idxs) <= len(stack) && len(call.Args) >= 2 {
 							fr := stack[len(idxs)-1]
 							a := sc.aff(call.Args[1])
-							okLen := a.ok && a.K == 0 && a.Of != nil && ((fr.l.Val != nil && objOf(info, a.Of) == fr.l.Val) || isRecvElem(info, a.Of, recv, fr.l.Idx))
-							if !okLen {
+							wantK := int64(0)
+							if closing {
+								wantK = 1
+							}
+							okLen := a.ok && a.K == wantK && a.Of != nil && ((fr.l.Val != nil && objOf(info, a.Of) == fr.l.Val) || isRecvElem(info, a.Of, recv, fr.l.Idx))
+							if !okLen && closing {
+								prob(call.Pos(), "ring allocated with length `"+src(call.Args[1])+"`, want the contour's length + 1 (room for the repeated first vertex)")
+							} else if !okLen {
 								prob(call.Pos(), "member allocated with length `"+src(call.Args[1])+"`, not the member's own length")
 							}
 						}
@@ -528,6 +566,7 @@ func c10copy(c *Ctx, info *types.Info, sc *fnScope, recv types.Object, fd *ast.F
 	if stores == 0 {
 		prob(fd.Pos(), "no store into the result structure found")
 	}
+	return closed
 }
 
 func isRecvElem(info *types.Info, e ast.Expr, recv types.Object, idx types.Object) bool {
